@@ -27,7 +27,8 @@ RULE = ("55% `hs` cases: a chain shape (direct, 1-2 intermediates sent/omitted/o
         "wildcard at the right/wrong depth, public-suffix wildcard, partial wildcards, star not left-most, CN only, IP as DNS "
         "SAN, DNS as IP SAN, NUL in SAN, trailing dots, underscore/IDN labels) x name source (server.sni preset/empty, "
         "client.sni, address; DNS, IPv4, IPv6, scoped IPv6, non-IP look-alikes, un-encodable names, NUL) x ssl_insecure x "
-        "trust as CA file or hashed directory x scenario (full handshake, server flight split, server closes, server "
+        "trust options {none = bundled default file (harness stand-in for certifi.where), CA file, hashed CA directory, both} x "
+        "placement of the wanted roots {configured store(s), default bundle only, nowhere} x scenario (full handshake, server flight split, server closes, server "
         "answers garbage, TCP connect fails) x child (opens the connection / connection already open with client data "
         "queued); 30% `ip` strings (valid/invalid IPv4/IPv6 forms from a token grammar) and 15% `idna` ASCII names (label "
         "lengths around 63, empty labels). Non-trivial hs = verification on and a ClientHello was sent; distinct by JSON.")
@@ -203,6 +204,52 @@ def _mutate_chain(rng, certs, chain, trust):
     return certs, chain, trust
 
 
+def _place_trust(rng, certs, trust):
+    """Where the certificates the chain shape wants trusted are put.  tmode = which options are set (default: none,
+    so the bundled default file -- a stand-in written by the harness -- is what is trusted); place = configured: in the
+    store(s) that count; bundle-only: only in the default bundle although a CA file/dir is configured (must NOT be
+    trusted); neither: nowhere.  Unrelated roots keep every store non-empty."""
+    unrelated = lambda n: dict(s=n, i=n, k=n, sk=n, ca=True, pl=None, nb=-30, na=300, dns=[], ips=[], cn=None)
+    certs.append(unrelated(95)); d1 = len(certs) - 1
+    certs.append(unrelated(96)); d2 = len(certs) - 1
+    tmode = rng.weighted([(2, "default"), (3, "file"), (3, "dir"), (2, "both")])
+    place = rng.weighted([(60, "configured"), (27, "bundle-only"), (13, "neither")])
+    cafile = cadir = None
+    bundle = [d2]
+    if tmode == "default":
+        if place != "neither":
+            place = "configured"
+            bundle = trust + [d2]
+    else:
+        conf = trust if place == "configured" else []
+        if tmode == "file":
+            cafile = conf + [d1]
+        elif tmode == "dir":
+            cadir = conf + [d1]
+        else:
+            k = rng.below(len(conf) + 1)
+            how = rng.below(3)
+            cafile = (conf if how == 0 else conf[:k] if how == 1 else []) + [d1]
+            cadir = (conf if how == 0 else conf[k:] if how == 1 else conf) + [d2]
+        if place == "bundle-only":
+            bundle = trust + [d2]
+    return {"cafile": cafile, "cadir": cadir, "bundle": bundle, "tmode": tmode, "place": place}
+
+
+def _norm(case):
+    """(cafile, cadir, bundle) index lists; old-format cases (trust + tmode file|dir) still replay"""
+    if "cafile" in case:
+        return case["cafile"], case["cadir"], case["bundle"]
+    t = case["trust"]
+    return (t if case["tmode"] == "file" else None), (t if case["tmode"] == "dir" else None), t
+
+
+def _configured(case):
+    """the configured trusted CAs of the statement: CA file and/or CA directory if set, else the default bundle"""
+    f, d, b = _norm(case)
+    return b if f is None and d is None else (f or []) + (d or [])
+
+
 def _hs_case(rng):
     r = rng.random()
     # requested name and where it comes from
@@ -242,7 +289,7 @@ def _hs_case(rng):
     child = 0 if scen == 3 else rng.weighted([(7, 0), (3, 1)])
     return {"k": "hs", "insecure": rng.chance(0.2), "preset": preset, "csni": csni, "host": host,
             "hint": IDNA_HINTS.get(eff) if eff in IDNA_HINTS else None,
-            "certs": certs, "chain": list(chain), "trust": list(trust), "tmode": rng.choice(["file", "dir"]),
+            "certs": certs, "chain": list(chain), **_place_trust(rng, certs, list(trust)),
             "scen": scen, "split": rng.chance(0.3), "child": child, "cdata": child == 1 and rng.chance(0.5),
             "tags": [label_n, label_c]}
 
@@ -296,7 +343,9 @@ def setup_impl():
     from cryptography.hazmat.primitives.asymmetric import ec
     from cryptography.x509.oid import NameOID
     from mitmproxy import connection, tls as mtls
+    import types
     from mitmproxy.addons import tlsconfig
+    from mitmproxy.net import tls as net_tls
     from mitmproxy.proxy import commands, context, events, layer
     from mitmproxy.proxy.layers import tls as ltls
     from mitmproxy.test import taddons
@@ -340,7 +389,7 @@ def setup_impl():
     _S.update(ipaddress=ipaddress, x509=x509, hashes=hashes, ser=serialization, ec=ec, NameOID=NameOID, connection=connection,
               mtls=mtls, ta=ta, tctx=tctx, cm=cm, commands=commands, context=context, events=events, layer=layer, ltls=ltls,
               SSL=SSL, crypto=crypto, Driver=Driver, tmp=tmp, T0=int(time.time()), keys={}, certs={}, stores={},
-              children=[Opener, Eager], opts=None, hctx=SSL.Context(SSL.TLS_CLIENT_METHOD))
+              children=[Opener, Eager], opts=None, bundle=None, net_tls=net_tls, types=types, hctx=SSL.Context(SSL.TLS_CLIENT_METHOD))
 
 
 def _cev_code(ev, events):
@@ -400,33 +449,38 @@ def _cert(case, c):
     return _S["certs"][key]
 
 
-def _store(case):
-    """write the trust set; -> (ca_file, ca_dir)"""
+def _write_store(case, idx, kind):
+    """write certificates idx as a PEM file (kind file) or a hashed directory (kind dir); -> path (content-addressed)"""
     ser, crypto = _S["ser"], _S["crypto"]
-    ders = [_cert(case, case["certs"][i])[0] for i in case["trust"]]
+    ders = [_cert(case, case["certs"][i])[0] for i in idx]
     dig = hashlib.sha256(b"".join(c.public_bytes(ser.Encoding.DER) for c in ders)).hexdigest()[:24]
-    key = (case["tmode"], dig)
+    key = (kind, dig)
     if key in _S["stores"]:
         return _S["stores"][key]
-    if case["tmode"] == "file":
+    if kind == "file":
         p = os.path.join(_S["tmp"], f"ca-{dig}.pem")
         with open(p, "wb") as f:
             for c in ders:
                 f.write(c.public_bytes(ser.Encoding.PEM))
-        r = (p, None)
     else:
-        d = os.path.join(_S["tmp"], f"cadir-{dig}")
-        os.makedirs(d, exist_ok=True)
+        p = os.path.join(_S["tmp"], f"cadir-{dig}")
+        os.makedirs(p, exist_ok=True)
         seen = {}
         for c in ders:
             h = "%08x" % crypto.X509.from_cryptography(c).subject_name_hash()
             n = seen.get(h, 0)
             seen[h] = n + 1
-            with open(os.path.join(d, f"{h}.{n}"), "wb") as f:
+            with open(os.path.join(p, f"{h}.{n}"), "wb") as f:
                 f.write(c.public_bytes(ser.Encoding.PEM))
-        r = (None, d)
-    _S["stores"][key] = r
-    return r
+    _S["stores"][key] = p
+    return p
+
+
+def _store(case):
+    """-> (ssl_verify_upstream_trusted_ca, ssl_verify_upstream_trusted_confdir, stand-in for certifi.where())"""
+    f, d, b = _norm(case)
+    return (None if f is None else _write_store(case, f, "file"), None if d is None else _write_store(case, d, "dir"),
+            _write_store(case, b, "file"))
 
 
 VERR_CLASS = {2: 1, 7: 1, 18: 1, 19: 1, 20: 1, 21: 1, 24: 1, 25: 1, 26: 1, 27: 1, 79: 1, 9: 2, 10: 2, 62: 3, 64: 3}
@@ -436,7 +490,13 @@ EXC_CODE = {"ValueError": 1, "UnicodeError": 2, "TypeError": 3, "Error": 4}
 def _run_hs(case):
     S = _S
     SSL, crypto, connection = S["SSL"], S["crypto"], S["connection"]
-    ca_file, ca_dir = _store(case)
+    ca_file, ca_dir, bundle = _store(case)
+    if S["bundle"] != bundle:
+        # the bundled default CA file is replaced by a harness-made one (we cannot mint chains under public roots);
+        # create_proxy_server_context is lru_cached on the option values, not on the content of the default file
+        S["net_tls"].certifi = S["types"].SimpleNamespace(where=lambda b=bundle: b)
+        S["net_tls"].create_proxy_server_context.cache_clear()
+        S["bundle"] = bundle
     want = (bool(case["insecure"]), ca_file, ca_dir)
     if S["opts"] != want:
         S["tctx"].configure(S["ta"], ssl_insecure=want[0], ssl_verify_upstream_trusted_ca=ca_file,
@@ -620,7 +680,9 @@ def coq_case(case, obs):
     t0 = obs["t0"]
     sni = obs["sni"] if obs["sni"] is not None else ""      # hook not reached (TCP connect failed): not compared
     i = f"(mkIn {cbool(case['insecure'])} {_ob(case['preset'])} {_ob(case['csni'])} {_s(case['host'])} {_ob(case['hint'])})"
-    trust = clist([_ccert(case, case["certs"][j], t0) for j in case["trust"]], "cert")
+    cl_ = lambda idx: clist([_ccert(case, case["certs"][j], t0) for j in idx], "cert")
+    f, d, b = _norm(case)
+    trust = f"(mkTc {copt(f, cl_, '(list cert)')} {copt(d, cl_, '(list cert)')} {cl_(b)})"
     chain = clist([_ccert(case, case["certs"][j], t0) for j in case["chain"]], "cert")
     nl = lambda l: clist([cN(x) for x in l], "N")
     return (f"Hs {i} {trust} {chain} {cZ(obs['now'])} {cN(case['scen'])} {cbool(case['split'])} {cN(case['child'])} "
@@ -704,7 +766,7 @@ def _ref_expected(case):
         if not _ref_hostname(ref):
             return None
         name_ok = any(_ref_dns_match(p, ref) for p in leaf["dns"])
-    return name_ok and _ref_chain_ok(case["certs"], case["chain"], case["trust"], 0)
+    return name_ok and _ref_chain_ok(case["certs"], case["chain"], _configured(case), 0)
 
 
 def oracle(case, obs):
@@ -713,7 +775,7 @@ def oracle(case, obs):
     v = []
     desc = (f"sni preset={case['preset']!r} client={case['csni']!r} address={case['host']!r} insecure={case['insecure']} "
             f"leaf dns={case['certs'][case['chain'][0]]['dns']!r} ips={case['certs'][case['chain'][0]]['ips']!r} "
-            f"cn={case['certs'][case['chain'][0]]['cn']!r} shape={case['tags']}")
+            f"cn={case['certs'][case['chain'][0]]['cn']!r} shape={case['tags']} trust-options={case.get('tmode')} wanted-roots-placed={case.get('place', 'configured')}")
     est = 3 in obs["cmds"]
     failed = 4 in obs["cmds"]
     app = unhx(obs["app"])
@@ -771,7 +833,7 @@ def classify(case, obs):
     out = ["hs", "insecure" if case["insecure"] else "verify", "scen%d" % case["scen"], "child%d" % case["child"],
            "name:" + case["tags"][0], "chain:" + case["tags"][1],
            "outcome:" + ("established" if 3 in obs["cmds"] else "failed" if 4 in obs["cmds"] else "none"),
-           "exc%d" % obs["exc"], "cls%d" % obs["cls"], "trust:" + case["tmode"]]
+           "exc%d" % obs["exc"], "cls%d" % obs["cls"], "trust:" + case["tmode"], "place:" + case.get("place", "configured")]
     if not case["insecure"] and case["scen"] == 0 and 4 in obs["cmds"] and obs["cls"] == 0 and obs["exc"] == 0:
         out.append("unclassified-verify-error")
     return out
